@@ -102,7 +102,7 @@ def gen_perturbation(w, r, ir):
     if secs:
         kinds += ["sec_name", "sec_flag"]
     if bis:
-        kinds += ["bi_attr", "bi_attr", "bi_bytes", "se_add", "se_del", "se_attr"]
+        kinds += ["bi_attr", "bi_attr", "bi_bytes", "se_add", "se_del", "se_attr", "se_field", "se_field"]
     if cbs or dbs:
         kinds += ["block_attr", "block_attr", "block_kind_swap", "uuid_change"]
     if syms:
@@ -183,6 +183,41 @@ def gen_perturbation(w, r, ir):
         if off is None:
             return None
         return (k, [{"op": "se", "bi": l, "method": "setitem", "args": [off, ["ac", V.i64(r), pick(local), []]]}], True)
+    if k == "se_field":
+        # one field of one expression: offset, scale, a symbol, or symbol1 <-> symbol2 exchanged
+        cands = [(l, off) for l in bis for off in m.nodes[l].a["se"]]
+        if not cands:
+            return None
+        l, off = pick(cands)
+        sp = m.nodes[l].a["se"][off][0]
+        mod = m.ancestor(l, "mod")
+        local = [s_ for s_ in syms if m.ancestor(s_, "mod") == mod]
+        attrs = sorted(sp[-1], key=repr)
+        if sp[0] == "ac":
+            what = pick(["offset", "symbol"])
+            if what == "offset":
+                new = ["ac", sp[1] + 1, sp[2], attrs]
+            else:
+                o = [x for x in local if x != sp[2]]
+                if not o:
+                    return None
+                new = ["ac", sp[1], pick(o), attrs]
+        else:
+            what = pick(["scale", "offset", "swap", "swap", "symbol1"])
+            if what == "scale":
+                new = ["aa", 0 if sp[1] != 0 else 1, sp[2], sp[3], sp[4], attrs]
+            elif what == "offset":
+                new = ["aa", sp[1], sp[2] - 1, sp[3], sp[4], attrs]
+            elif what == "swap":
+                if sp[3] == sp[4]:
+                    return None
+                new = ["aa", sp[1], sp[2], sp[4], sp[3], attrs]
+            else:
+                o = [x for x in local if x != sp[3]]
+                if not o:
+                    return None
+                new = ["aa", sp[1], sp[2], pick(o), sp[4], attrs]
+        return (k + ":" + what, [{"op": "se", "bi": l, "method": "setitem", "args": [off, new]}], True)
     if k in ("se_del", "se_attr"):
         cands = [(l, off) for l in bis for off in m.nodes[l].a["se"]]
         if not cands:
